@@ -49,7 +49,8 @@ def run(module, cfg, workers=8, env=None, extra=(), timeout=3600, coverage=False
         cmd += ["-simulate", simulate]
     cmd += list(extra) + [module]
     e = dict(os.environ)
-    e["JAVA_TOOL_OPTIONS"] = JAVA_OPTS
+    # (TLC leaves an empty tlc-<n> directory in java.io.tmpdir per run: keep it inside the directory removed below)
+    e["JAVA_TOOL_OPTIONS"] = JAVA_OPTS + f" -Djava.io.tmpdir={meta}"
     if env:
         e.update(env)
     t0 = time.time()
